@@ -1,10 +1,11 @@
+pub mod c01;
 pub mod c05;
 pub mod c11;
 
 use crate::engine::Prop;
 
 pub fn all() -> Vec<&'static dyn Prop> {
-    vec![&c05::C05, &c11::C11]
+    vec![&c01::C01, &c05::C05, &c11::C11]
 }
 
 pub fn find(id: &str) -> Option<&'static dyn Prop> {
